@@ -7,6 +7,8 @@ P=$1; N=$2; TIER=${3:-quick}; CHK=${4:-$P}
 SRC=/tmp/seed_$P.out/$N; W=/tmp/seed_$P; D=/verif/seeded/$P-$N
 # round 2 (independent second agent per property): seeds 3 and 4 come from /tmp/seed2_<P>.out/{1,2}
 if [ "$N" -ge 3 ]; then SRC=/tmp/seed2_$P.out/$((N-2)); W=/tmp/seed2_$P; fi
+# round 3: seeds 5 and 6 from /tmp/seed3_<P>.out/{1,2}
+if [ "$N" -ge 5 ]; then SRC=/tmp/seed3_$P.out/$((N-4)); W=/tmp/seed3_$P; fi
 [ -d $D ] || { mkdir -p $D; cp $SRC/patch.diff $SRC/demo_test.go $D/; cp $SRC/notes.txt $D/ 2>/dev/null; }
 PKG=$(head -3 $D/demo_test.go | grep -oE '"[^"]+"' | head -1 | tr -d '"'); PKG=${PKG:-.}
 [ -n "${PKGDIR:-}" ] && PKG=$PKGDIR
@@ -17,4 +19,9 @@ echo "== check $CHK $TIER on mutated worktree"
 OUT=/tmp/try_$P-$N.out; rm -rf $OUT; mkdir -p $OUT
 ( cd /verif && VERIF_REPO=$W VERIF_OUT_DIR=$OUT ./check $CHK --tier $TIER > /tmp/try_$P-$N.log 2>&1; echo "exit=$?" >> /tmp/try_$P-$N.log )
 grep -E "^VIOLATION|^violation|^INCONCLUSIVE|exit" /tmp/try_$P-$N.log | cut -c1-400 | head -12
+# first-pass record: the outcome of the first time a change met the check (never overwritten)
+FP=/verif/seeded/first_pass.tsv
+if ! grep -q "^$P-$N	" $FP 2>/dev/null; then
+  printf "%s\t%s\t%s\t%s\n" "$P-$N" "$CHK" "$(grep -o 'exit=[0-9]*' /tmp/try_$P-$N.log | tail -1)" "$(git -C /verif log --oneline -1 | cut -d' ' -f1)" >> $FP
+fi
 cd $W && git checkout -q -- . && git clean -fdq
